@@ -97,7 +97,7 @@ pub fn runaway_file(id: &str) -> String {
 /// `zvtmon decode-one <type> <hex> <report.json>`: one decode / re-encode / decode alone in this process, under the
 /// runaway monitor (10 s, 1 GiB).
 pub fn decode_one(args: &[String]) -> i32 {
-    refcodec::runaway::start_watchdog(args[2].clone(), std::time::Duration::from_secs(10), 1 << 20);
+    refcodec::runaway::start_watchdog_alone(args[2].clone(), std::time::Duration::from_secs(10), 1 << 20);
     let bytes = refcodec::unhex(&args[1]).unwrap_or_default();
     let _ = Sut::run(&mut refcodec::runaway::Watched(InProc), &args[0], &bytes);
     0
@@ -144,6 +144,9 @@ pub fn confirm_runaway(report: &mut refcodec::evidence::Report, id: &str, file: 
 
 /// `zvtmon runaway-confirm <ID> <file>`: verdict after a codec check ended itself as runaway.
 pub fn runaway_confirm(ctx: &Ctx, id: &str, file: &str) -> i32 {
+    if id == "C02" {
+        return crate::c02::confirm_file(ctx, file);
+    }
     let mut report = ctx.report(id, "exploration");
     report.rule = "the check ended itself because an operation on a shipped type did not come back or memory ran away; every operation that was in flight is run again alone in a fresh process (10 s, 1 GiB): one that again does not come back is a violation, none => inconclusive".into();
     let bin = std::env::current_exe().map(|p| p.display().to_string()).unwrap_or_default();
